@@ -56,3 +56,26 @@ def oracle_adjust_chunksize(a, result, exc):
     elif 5 * MiB <= c <= 5 * GiB and result != c:
         return False, f'chunksize {c} changed to {result} although no limit requires it'
     return True, ''
+
+
+def pre_get_temp_filename(a):
+    import os
+    name = os.path.basename(a['filename'])
+    return len(name) >= 1
+
+
+def oracle_get_temp_filename(a, result, exc):
+    import os
+    import re
+    if exc is not None:
+        return False, f'raised {exc!r}'
+    name = os.path.basename(result)
+    if result == a['filename']:
+        return False, 'the temporary name IS the destination name'
+    if os.path.dirname(result) != os.path.dirname(a['filename']):
+        return False, 'temporary file not in the destination directory'
+    if len(name) > 255:
+        return False, f'temporary name has {len(name)} characters'
+    if not re.search(r'\.[0-9A-Fa-f]{8}$', name):
+        return False, f'random suffix truncated: {name[-12:]!r}'
+    return True, 'ok'
